@@ -34,6 +34,7 @@ type Engine struct {
 	MaxThreads      int
 	MaxSwitches     int
 	tracing         bool
+	RecordUnsat     bool // keep the text of discharged (unsat) obligations for a cross-solver re-check
 	LoadSeconds     float64
 
 	intrinsics map[string]intrinsic
@@ -173,6 +174,7 @@ type Result struct {
 	Exhausted   bool // false if MaxPaths hit
 	MaxDepth    int
 	Nontrivial  int // paths that discharged at least one obligation or reached a label
+	UnsatQueries map[string]struct{} `json:"-"` // distinct discharged obligations (SMT-LIB text), capped
 }
 
 type PathSample struct {
@@ -196,7 +198,7 @@ type Options struct {
 func (e *Engine) Explore(fn *ssa.Function, opt Options) *Result {
 	start := time.Now()
 	res := &Result{Harness: fn.String(), Unsupported: map[string]int{}, UnsupportedAt: map[string][]int{}, Panics: map[string]int{}, Reached: map[string]int{},
-		Notes: map[string]int{}, Funcs: map[string]int{}, Exhausted: true}
+		Notes: map[string]int{}, Funcs: map[string]int{}, Exhausted: true, UnsatQueries: map[string]struct{}{}}
 	if opt.MaxViolations == 0 {
 		opt.MaxViolations = 5
 	}
@@ -290,6 +292,11 @@ func (e *Engine) Explore(fn *ssa.Function, opt Options) *Result {
 					res.Panics[p.outcomeMsg]++
 				}
 				res.Violations = append(res.Violations, p.violations...)
+				for _, q := range p.unsatQueries {
+					if len(res.UnsatQueries) < 20000 {
+						res.UnsatQueries[q] = struct{}{}
+					}
+				}
 				if len(res.Samples) < 12 && (p.outcome == OutcomeOK || len(p.violations) > 0) && (len(p.reached) > 0 || len(p.violations) > 0) {
 					res.Samples = append(res.Samples, p.sample())
 				}
